@@ -157,13 +157,17 @@ def evaluate(case):
 # ----- enumeration -----------------------------------------------------------------------------------------
 def base_docs(thorough):
     out = []
+    quick_maps = ('270.4010.X092.A1.xml', '277U.4010.X070.xml', '278.4010.X094.27.A1.xml', '278.4010.X094.A1.xml', '820.5010.X218.xml',
+                  '834.4010.X095.A1.xml', '835.5010.X221.A1.xml', '837.4010.X098.A1.xml', '837.5010.X222.A1.xml', '997.4010.xml', '999.5010.xml')
     for e in corpus.one_entry_per_map():
+        if not thorough and e[4] not in quick_maps:
+            continue
         d = corpus.build_ok(e, {})
         if d is not None:
             loops = sorted(set(lp[-1][0].rsplit('/', 1)[-1] for lp in d.lpaths if len(lp) > 3))
             out.append(('min:' + e[4], d.text(eol='\n'), loops[:1] or ['ST_LOOP']))
     for lab, txt, info in corpus.suite_docs():
-        if thorough or len(txt) <= 1100:
+        if thorough or len(txt) <= 700:
             out.append((lab, txt, ['2300'] if '837' in lab or 'simple' in lab else ['ST_LOOP']))
     for lab, d, info in corpus.shape_docs():
         if (thorough and lab.endswith('2x2x2')) or lab.endswith('1x2x1:bad0'):
@@ -172,9 +176,10 @@ def base_docs(thorough):
 
 
 def config_docs():
-    out = base_docs(False)
+    out = base_docs(True)
+    out = [b for b in out if not b[0].startswith('suite:')]
     for lab, txt, info in corpus.suite_docs():
-        if len(txt) > 1100:
+        if True:
             out.append((lab, txt, ['2300'] if '837' in lab or 'simple' in lab else ['ST_LOOP']))
     return out
 
